@@ -37,7 +37,7 @@ def stepThread (cfg : Cfg H) (s : Store H) (t : Thread H) : Store H × Thread H 
     let r := mkRow cfg s t.x
     match r.st with
     | .orphan => (s, { t with pc := .writes r [.insert r] })
-    | .lc => (s, { t with pc := .readAtHeight r })
+    | .lc => if r.work = 0 then (s, { t with pc := .readTip r }) else (s, { t with pc := .readAtHeight r })
     | .stale => (s, { t with pc := .readTip r })
   | .readAtHeight r =>
     match lcAtHeight s r.height with
